@@ -52,13 +52,13 @@ def runRounds (sc : List Sched) (cs : List (Callee × Bool)) (hold : List Nat) (
     let gH := if hold.isEmpty then g1 else scheduleH hold prog sc fuel rem g0
     runRounds sc cs hold fuel rest (off + n) g1 (st ++ blockedBehind prog hold gH) (fr || (!hold.isEmpty && frozen prog gH))
 
-/-- case: {"invs": [{"callee": [...], "big": bool, "dur": n, "pred": null | idx}, …], "rounds": [n₀, n₁, …]?}: the first n₀
+/-- case: {"invs": [{"callee": [...], "big": bool, "dur": n, "pred": null | idx, "gate": [idx, …]?}, …], "rounds": [n₀, n₁, …]?}: the first n₀
     invocations are made in a first event loop, the next n₁ in a second one started after the first has ended, …
     (no "rounds": one event loop for all) -/
 def handle (c : Json) : Json :=
   let invs := jL (jF c "invs")
   let cs : List (Callee × Bool) := invs.mapIdx (fun i j => (calleeOf i (jF j "callee"), jB (jF j "big")))
-  let sc : List Sched := invs.map (fun j => { dur := jN (jF j "dur"), pred := jOptN (jF j "pred") })
+  let sc : List Sched := invs.map (fun j => { dur := jN (jF j "dur"), pred := jOptN (jF j "pred"), gate := (jL (jF j "gate")).map jN })
   let rounds : List Nat := match (jL (jF c "rounds")).map jN with | [] => [invs.length] | r => r
   -- children that linger after their send: where does the system stand while they have not exited?
   let hold := (List.range invs.length).filter (fun i => match invs[i]? with | some j => jTag (jF j "callee") == "linger" | none => false)
